@@ -55,7 +55,7 @@ def run_cases(ctx, binary, cases, tag):
 def selftest_records(records):
     base = [r for r in records if r["fired"] and r["kind"] == "flip" and r["pos"] == 4 and r["rtype"] == 22 and not r["obs"]["cdone"]]
     if not base:
-        raise Machinery("selftest: no body flip record")
+        return []
     a = copy.deepcopy(base[0]); a["id"] = -1; a["obs"]["spanic"] = True
     b = copy.deepcopy(base[0]); b["id"] = -2; b["obs"]["chang"] = True
     c = copy.deepcopy(base[0]); c["id"] = -3; c["obs"]["cdone"] = c["obs"]["sdone"] = c["obs"]["dataok"] = True
@@ -89,13 +89,17 @@ def run(ctx):
     if len([i for i, _ in rejects if i >= len(allrecs)]) != len(st_recs):
         raise Machinery("binding self-test: a corrupted record was accepted - the judge constrains nothing")
     rejects = [(i, f) for i, f in rejects if i < len(allrecs)]
+    if not st_recs and not rejects:
+        raise Machinery("selftest: no body flip record and nothing rejected (vacuous)")
+    cands = to_cands(allrecs, rejects)
+    ctx.candidates(binary, cands, reproduce=T.BatchReproducer(ctx, "C32", cands, lambda cs: run_cases(ctx, binary, cs, "repro")))
 
     fired = {}
     for r in allrecs:
         if r["fired"]:
             k = (r["kind"], r["dir"])
             fired[k] = fired.get(k, 0) + 1
-    for kind in ("flip", "trunc", "insert", "split", "refrag", "dup", "drop", "close", "garbage", "stream"):
+    for kind in ("flip", "trunc", "insert", "split", "refrag", "dup", "drop", "close", "garbage", "stream", "shorten", "lengthen"):
         for d in (0, 1):
             if fired.get((kind, d), 0) < 10:
                 raise Machinery("fault kind %s in direction %d fired only %d times (vacuous)" % (kind, d, fired.get((kind, d), 0)))
@@ -116,8 +120,6 @@ def run(ctx):
                        "record kind) enumerated exhaustively by TLC, plus stream cases and seeded random cases; non-trivial = the "
                        "fault hit an existing record (or a stream was fed)" % (7 if quick else 11))
     ctx.log("C32 observations: %s" % json.dumps(outcomes))
-    cands = to_cands(allrecs, rejects)
-    ctx.candidates(binary, cands, reproduce=T.BatchReproducer(ctx, "C32", cands, lambda cs: run_cases(ctx, binary, cs, "repro")))
 
 
 def replay(ctx, path):
